@@ -22,6 +22,7 @@ Section Closure.
   Hypothesis P_begin_cleanup : P begin_cleanup.
   Hypothesis P_pop_cleanup : P pop_cleanup.
   Hypothesis P_end_cleanup : P end_cleanup.
+  Hypothesis P_note_skip : forall m, P (note_skip m).
   Hypothesis P_failOnError : forall l, P (failOnError l).
   Hypothesis P_note_draw : forall v, P (note_draw v).
   Hypothesis P_drawBits : forall n, P (drawBits n).
@@ -34,7 +35,7 @@ Section Closure.
     repeat first
       [ apply P_ret | apply P_throw | apply P_emit_g | apply P_emit_u; reflexivity | apply P_get_ts | apply P_mark_dirty
       | apply P_signal | apply P_register | apply P_context_call | apply P_begin_cleanup | apply P_pop_cleanup
-      | apply P_end_cleanup | apply P_failOnError | apply P_note_draw | apply P_drawBits
+      | apply P_end_cleanup | apply P_note_skip | apply P_failOnError | apply P_note_draw | apply P_drawBits
       | apply P_group_d | apply P_bind; [|intros]
       | assumption
       | match goal with H : forall a, P (_ a) |- _ => apply H end ].
@@ -106,8 +107,9 @@ Section Closure.
       apply P_bind; [apply P_pop_cleanup|intros c].
       destruct c as [c|]; [|apply P_ret].
       apply P_try; [apply P_crun|]. intros [v|e]; [apply IH|].
-      destruct e; try (apply P_bind; [apply P_ret|intros; apply IH]).
-      - apply P_bind; [destruct (internal_msg m); pa|intros; apply IH].
+      destruct e; try apply IH.
+      - apply P_bind; [destruct (internal_msg m); pa|intros _].
+        apply P_bind; [apply P_note_skip|intros; apply IH].
       - apply P_throw.
     Qed.
     Lemma P_cleanup : P (cleanup LF crun).
@@ -227,8 +229,11 @@ Section Closure.
     - intros r. unfold check_handler.
       assert (H : P (_ <- (match r with Err (XInvalid m) => if internal_msg m then mark_dirty else ret tt | _ => ret tt end) ;;
           c <- cleanup LF (exec geom LF lvl) ;;
-          let r' := match c with Some e => Err e | None => r end in
           t <- get_ts ;;
+          let r' := match c with
+                    | Some e => Err e
+                    | None => match r, skipreq t with Ok _, Some m => Err (XInvalid m) | _, _ => r end
+                    end in
           match r', failed t with
           | Err XFuel, _ => throw XFuel
           | Ok _, Some m | Err (XInvalid _), Some m => throw (XStop m SLate)
@@ -238,9 +243,9 @@ Section Closure.
       { apply P_bind.
         - destruct r as [|[]]; try apply P_ret. destruct (internal_msg m); [apply P_mark_dirty|apply P_ret].
         - intros _. apply P_bind; [apply P_cleanup; apply P_exec|intros c].
-          cbv zeta. apply P_bind; [apply P_get_ts|intros t].
-          destruct (match c with Some e => Err e | None => r end) as [u|[]]; destruct (failed t);
-            try apply P_throw; apply P_ret. }
+          apply P_bind; [apply P_get_ts|intros t]. cbv zeta.
+          destruct (match c with Some e => Err e | None => match r, skipreq t with Ok _, Some m => Err (XInvalid m) | _, _ => r end end)
+            as [u|[]]; destruct (failed t); try apply P_throw; apply P_ret. }
       destruct r as [u|[]]; try exact H. apply P_throw.
   Qed.
 End Closure.
